@@ -35,7 +35,7 @@ Proof.
     unfold bind in H.
     destruct (cell_font fonts ri wi); [|discriminate].
     destruct (cell_size sizes ri wi); [|discriminate].
-    destruct (width_at widths (py_str v) a a0); [|discriminate].
+    destruct (width_at widths (display v) a a0); [|discriminate].
     apply IH in H. lia.
 Qed.
 
